@@ -80,6 +80,9 @@ func (self *Transformer) Transform(tree ast.AnalyzedProgram) ast.AnalyzedProgram
 
 	output.Types = tree.Types
 	output.Imports = tree.Imports
+	// Singletons and impl blocks are part of the program: the functions refer to them.
+	output.Singletons = tree.Singletons
+	output.ImplBlocks = tree.ImplBlocks
 
 	for _, glob := range tree.Globals {
 		newGlob := ast.AnalyzedLetStatement{
